@@ -143,20 +143,68 @@ def fn_names(v: "FnView") -> set[str]:
 _REVIEWED: dict | None = None
 
 
-def new_names(v: "FnView") -> set[str]:
-    """Identifiers of the function that the reviewed tree's version of it did not contain
-    (selftest/reviewed_names.json).  Only ever used to decline a judgement."""
+def _reviewed(v: "FnView") -> dict | None:
     global _REVIEWED
     if _REVIEWED is None:
         import json
         import os
 
-        pth = os.path.join(os.path.dirname(os.path.dirname(os.path.abspath(__file__))), "selftest", "reviewed_names.json")
+        pth = os.path.join(os.path.dirname(os.path.dirname(os.path.abspath(__file__))), "selftest", "reviewed_shape.json")
         _REVIEWED = json.load(open(pth)) if os.path.exists(pth) else {}
-    rv = _REVIEWED.get(v.fn.key)
+    return _REVIEWED.get(v.fn.key)
+
+
+def new_names(v: "FnView") -> set[str]:
+    """Locals (and parameters) of the function that the reviewed tree's version of it did not
+    contain (selftest/reviewed_shape.json).  Only ever used to decline a judgement."""
+    rv = _reviewed(v)
     if rv is None:
         return set()
-    return fn_names(v) - set(rv)
+    return (set(v.locals) | set(v.fn.params())) - set(rv["names"])
+
+
+def returns_reshaped(v: "FnView") -> bool:
+    """Some return of the reviewed function is gone (by text): the function's exits were
+    restructured, so an additional constant answer cannot be attributed to a reviewed guard set.
+    When every reviewed return is still there, an extra constant answer is new behaviour and is judged."""
+    rv = _reviewed(v)
+    if rv is None:
+        return True
+    now = [" ".join(src(r.value).split()) if r.value is not None else "None" for r in walk_own(v.fn.node) if isinstance(r, ast.Return)]
+    left = list(now)
+    for t in rv["returns"]:
+        if t in left:
+            left.remove(t)
+        else:
+            return True
+    return False
+
+
+def expand_vanished(v: "FnView", fact: str) -> str:
+    """A table fact with every identifier the function no longer contains replaced by the
+    expression it was defined as in the reviewed function (a local that was inlined)."""
+    rv = _reviewed(v)
+    if rv is None or not rv.get("defs") or fact.startswith(("re:", "exhausted(")):
+        return fact
+    raw = fact.startswith("raw:")
+    body = fact[4:] if raw else fact
+    for _ in range(3):
+        gone = [g for g in vanished(v, body) if g in rv["defs"]]
+        if not gone:
+            break
+        try:
+            tree = ast.parse(body, mode="eval")
+        except SyntaxError:
+            return fact
+
+        class T(ast.NodeTransformer):
+            def visit_Name(self, node: ast.Name) -> ast.AST:
+                if node.id in gone:
+                    return ast.parse(rv["defs"][node.id], mode="eval").body
+                return node
+
+        body = " ".join(ast.unparse(ast.fix_missing_locations(T().visit(tree))).split())
+    return ("raw:" if raw else "") + body
 
 
 def vanished(v: "FnView", fact: str) -> set[str]:
@@ -174,6 +222,9 @@ def vanished(v: "FnView", fact: str) -> set[str]:
     if subs is None:
         subs = {"".join(src(n).split()) for n in ast.walk(v.fn.node) if isinstance(n, ast.Subscript) and isinstance(n.value, ast.Name) and isinstance(n.slice, (ast.Name, ast.Constant))}
         v._subs_cache = subs  # type: ignore[attr-defined]
+    rv = _reviewed(v)
+    if rv is not None and "locals" in rv:
+        gone &= set(rv["locals"])  # only what was a local / parameter of the reviewed function can have been renamed
     for m in re.finditer(r"(?<![\w.])([A-Za-z_]\w*)\[(\w+)\]", body):
         if "".join(m.group(0).split()) not in subs and m.group(1) in fn_names(v):
             gone.add(m.group(0))
@@ -227,6 +278,18 @@ def _node_facts(v: FnView) -> list:
             h = inline_helper(v.prog, v.fn.module.rel, n.node)
             if h is not None:
                 fs |= set(_facts(h, n.kind == "T"))
+            if any(isinstance(x, ast.NamedExpr) for x in ast.walk(n.node)):
+                # `(x := e)` tests e: the facts of the expression with the binding replaced by its value
+                from .norm import clone
+
+                class W(ast.NodeTransformer):
+                    def visit_NamedExpr(self, node: ast.NamedExpr) -> ast.AST:
+                        return self.visit(node.value)
+
+                we = ast.fix_missing_locations(W().visit(clone(n.node)))
+                fs |= set(_facts(we, n.kind == "T"))
+                for d in (1, 2, 3):
+                    fs |= set(_facts(we, n.kind == "T", v.res.src_at(d)))
             out.append((n, fs, {alpha(f, v.locals) for f in fs}))
     v._nf_cache = out  # type: ignore[attr-defined]
     return out
@@ -313,6 +376,7 @@ def _establishing(v: FnView, fact: str) -> list:
                 if (fact.startswith("re:") and re.fullmatch(fact[3:], f)) or f == fact:
                     out.append(n)
         return out
+    fact = expand_vanished(v, fact)
     gone = vanished(v, fact)
     want = alpha(fact[4:], v.locals | gone) if fact.startswith("raw:") else (alpha(fact, v.locals | gone) if gone else None)
     for n, fs, afs in _node_facts(v):
@@ -357,7 +421,7 @@ def need_holds(v: FnView, node: ast.AST, alts: list[str], raw: bool = False, non
                     return True
     through = []
     for a in alts:
-        fs = [a] if raw else need_facts(a)
+        fs = [expand_vanished(v, f) for f in ([a] if raw else need_facts(a))]
         if len(fs) != 1:
             if len(alts) != 1:
                 raise AnalysisError(f"gate table: a compound need `{a}` cannot be an alternative")
@@ -397,11 +461,7 @@ def require(report: Report, rule: str, v: FnView, node: ast.AST, needs: list, wh
         for p in needs:
             for a in ([p] if isinstance(p, str) else list(p)):
                 for f in ([a] if a.startswith(("raw:", "re:", "exhausted(")) else need_facts(a)):
-                    gone |= vanished(v, f)
-        nn = new_names(v)
-        fresh_ids = sorted({x.id for a, _o in v.cfg.guards_at(node) for x in ast.walk(a) if isinstance(x, ast.Name) and x.id in nn}) if nn else []
-        if fresh_ids and not gone:
-            raise AnalysisError(f"{rule}: {v.fn.key}: the guard of `{construct[:60]}` cannot be compared: it is now guarded through {fresh_ids}, which the reviewed function did not contain; the reviewed condition found 0 time(s) in that form (restructured)")
+                    gone |= vanished(v, expand_vanished(v, f))
         if gone:
             raise AnalysisError(f"{rule}: {v.fn.key}: the guard of `{construct[:60]}` cannot be compared: the reviewed condition mentions {sorted(gone)}, which found 0 time(s) in the function now (renamed or restructured)")
         report.violate(
